@@ -905,9 +905,13 @@ pub fn run<P: Property>(prop: P, tier: Tier, seed: u64) -> RunResult {
         }
     }
 
+    // (sensitivity experiments only: VERIF_STAGE=fuzz skips the sweeps and the generated search
+    // so that the coverage-guided stage is the only thing that can find a seeded change)
+    let only_fuzz = std::env::var("VERIF_STAGE").as_deref() == Ok("fuzz");
+
     // ---- tier 3: deterministic sweeps
     let mut sweep = Sweep::default();
-    if violations.is_empty() {
+    if violations.is_empty() && !only_fuzz {
         let r = guard(|| match prop.sweep(tier, seed, &mut sweep) {
             Ok(()) => Ok(None),
             Err((case, fail)) => Ok(Some((case, fail))),
@@ -932,7 +936,7 @@ pub fn run<P: Property>(prop: P, tier: Tier, seed: u64) -> RunResult {
     let stats = Arc::new(Mutex::new(Stats::default()));
     let min_failed = Arc::new(AtomicUsize::new(usize::MAX));
     let mut shard_failures: Vec<Option<(P::Case, Fail)>> = (0..SHARDS).map(|_| None).collect();
-    if violations.is_empty() {
+    if violations.is_empty() && !only_fuzz {
         let cases = prop.cases(tier);
         let mut handles = Vec::new();
         for shard in 0..SHARDS {
